@@ -212,15 +212,24 @@ def Piece.isShQuoted : Piece → Bool
 /-- every argument occurrence of the template goes through `shlex.quote` -/
 def allShQuoted (t : Template) : Bool := t.all Piece.isShQuoted
 
+/-- a pending one-character operator (`>` in ` 2>`) is complete when a word starts -/
+def LexSt.closeOp (st : LexSt) : LexSt :=
+  match st.mode with
+  | .opc a => { (st.emit (.op [a])) with mode := .unq }
+  | _ => st
+
+/-- insert an argument value verbatim into the current word (starting one if needed) -/
+def LexSt.insert (st : LexSt) (s : List Char) : LexSt := st.closeOp.pushLit s
+
 /-- the intended reading of a template: literal text is read by the shell, argument values are inserted
     verbatim into the current word -/
 def specFeed (st : LexSt) (args : List (List Char)) : Template → LexSt
   | [] => st
   | .lit s :: t => specFeed (feed st s) args t
-  | .raw i :: t => specFeed (st.pushLit (arg args i)) args t
-  | .shq i :: t => specFeed (st.pushLit (arg args i)) args t
-  | .dq i :: t => specFeed (st.pushLit (arg args i)) args t
-  | .safe i :: t => specFeed (st.pushLit (arg args i)) args t
+  | .raw i :: t => specFeed (st.insert (arg args i)) args t
+  | .shq i :: t => specFeed (st.insert (arg args i)) args t
+  | .dq i :: t => specFeed (st.insert (arg args i)) args t
+  | .safe i :: t => specFeed (st.insert (arg args i)) args t
 
 /-- the arguments at `safe` positions are what they are assumed to be: non-empty strings of safe characters -/
 def safeArgsOk (t : Template) (args : List (List Char)) : Bool :=
